@@ -15,7 +15,7 @@ COORD = ['N~[Cu+2]~N', '[Cl-]~[Pt+2](~[Cl-])(~N)~N', 'O~[Mg+2]', 'c1ccccc1~[Cr]'
          'N#C~[Fe+2](~C#N)~C#N', 'C1=CC=CC=C1~[Fe]', 'CO~[Li+]', 'CSC~[Pd+2]']
 STEREO = ['C[C@H](O)CC', 'C[C@@H](O)CC', 'C[C@](N)(O)CC', 'N[C@@H](C)C(=O)O', 'C/C=C/C', 'C/C=C\\C', 'C/C=C/C=C\\C', 'C[C@H]1CC[C@@H](O)CC1',
           'C[C@H](O)/C=C/[C@@H](N)C', 'OC(=O)[C@H](N)Cc1ccccc1', 'F/C(Cl)=C(/Br)I', 'C[C@@H]1CCC[C@H](C)N1', 'O[C@H]1[C@H](O)[C@@H](O)[C@H](O)[C@@H](O)[C@@H]1O',
-          'C(/C=C/Cl)(=C\\C)C', 'C[C@]([H])(O)CC', '[H]/C(C)=C/C', 'C/C=C/[H]', 'C[C@H](F)/C=C\\[C@H](F)C', 'C[C@H](Cl)[C@@H](Cl)C', 'C[C@H](Cl)[C@H](Cl)C',
+          'C(/C=C/Cl)(=C\\C)C', 'C[C@]([H])(O)CC', '[H]/C(C)=C/C', 'C/C=C(/[H])C', 'C[C@H](F)/C=C\\[C@H](F)C', 'C[C@H](Cl)[C@@H](Cl)C', 'C[C@H](Cl)[C@H](Cl)C',
           'OC[C@H]1O[C@@H](O)[C@H](O)[C@@H](O)[C@@H]1O', 'C[C@@]12CCC[C@H]1CCCC2', 'N/C(C)=C(/C)O', 'C\\C(N)=N/O', 'CC/N=N/c1ccccc1', 'C[C@H](N)c1ccccc1',
           'CC=[C@]=CC', 'C/C=C=C=C/C', 'C[C@H](O)C=[C@]=CC', 'C[C@H]1CO1', 'C[C@@H]1C[C@H]1C', '[C@H](F)(Cl)Br', 'F[C@](Cl)(Br)I']
 
@@ -60,6 +60,8 @@ def bridge_view(m):
 
 
 ORDER = {1: 'SINGLE', 2: 'DOUBLE', 3: 'TRIPLE', 4: 'AROMATIC', 8: 'DATIVE'}
+# main-group non-metals / metalloids that act as donors (independent of the library's list)
+NONMETAL = set('H He B C N O F Ne Si P S Cl Ar Ge As Se Br Kr Sb Te I Xe'.split())
 
 
 def check_to_attrs(Chem, m, rd, tag):
@@ -96,6 +98,12 @@ def check_to_attrs(Chem, m, rd, tag):
         o, t = int(b.order), str(rb.GetBondType())
         if o == 8:
             ok = t in ('DATIVE', 'ZERO')
+            # direction of a dative bond: donor (main-group non-metal) -> acceptor (metal), when exactly one end is a non-metal
+            dx, dy = m.atom(x).atomic_symbol in NONMETAL, m.atom(y).atomic_symbol in NONMETAL
+            if ok and t == 'DATIVE' and dx != dy:
+                donor = x if dx else y
+                if rb.GetBeginAtom().GetAtomMapNum() != donor:
+                    out.append(('to:dative-direction', f'{x}-{y}: donor {donor}', rb.GetBeginAtom().GetAtomMapNum()))
         elif o == 4:
             ok = t == 'AROMATIC'
         elif rb.GetIsAromatic():
@@ -258,7 +266,7 @@ def check_one(a):
 
     # --- from_rdkit_molecule on RDKit's own molecules ----------------------------------------------------------------------------
     if not coordinate:
-        src = rd_parse(Chem, s.split(' |')[0])
+        src = Chem.MolFromSmiles(s.split(' |')[0])    # RDKit's default reading (explicit hydrogen atoms merged)
         if src is not None and form == 'kekule':
             Chem.Kekulize(src, clearAromaticFlags=True)
         for rdm, label in ((src, 'MolFromSmiles(s)'), (ref_rd, 'MolFromSmiles(str(m))')):
